@@ -44,6 +44,29 @@ def scenarios(rng, sid, n):
     return out
 
 
+def special(rng, sid, n):
+    """large states and emissions racing with the first handshake:
+    big   N > 100 local topics before the join (the full-state resynchronisation is longer than one batch of 100 events) and a
+          burst of > 100 events while the stream stands, with a cut in between
+    race  N local topics before the join; while the first handshake and its resynchronisation run, a second goroutine
+          unsubscribes them all (paced to straddle the handshake): whatever the order, at quiescence B's view = A's local set"""
+    out = []
+    for i in range(n):
+        if i % 2 == 0:
+            big = rng.choice([101, 150, 199, 201, 250])
+            ops = [{"op": "msg", "n": 1}, {"op": "subn", "c": "c2", "t": "burst", "n": rng.choice([101, 130, 220]), "us": 0}, {"op": "msg", "n": 2}]
+            if rng.random() < 0.5:
+                ops.insert(1, {"op": "cut", "dir": rng.choice(["c2s", "s2c"]), "after": rng.choice([40, 500, 3000, 9000])})
+            ops += [{"op": "unsubn", "c": "c2", "t": "burst", "n": rng.choice([50, 101]), "us": 0, "seed": rng.randrange(1, 99)}, {"op": "msg", "n": 3}]
+            out.append({"id": "%s-big%d" % (sid, i), "pre": [{"op": "subn", "c": "c1", "t": "big", "n": big, "us": 0}], "ops": ops})
+        else:
+            nn = rng.choice([800, 1500, 2500])
+            out.append({"id": "%s-race%d" % (sid, i), "pre": [{"op": "subn", "c": "c1", "t": "rc", "n": nn, "us": 0}],
+                        "race": [{"op": "unsubn", "c": "c1", "t": "rc", "n": nn, "us": rng.choice([10, 20, 40]), "seed": rng.randrange(1, 10**6)}],
+                        "ops": [{"op": "msg", "n": 1}]})
+    return out
+
+
 def run(ctx, scs, name="fedgrpc", par=24, timeout=900):
     """-> (rejected [{scenario, trace, line, event}], stats)"""
     bindir = ctx.go_build(["./cmd/fedgrpc"])
